@@ -171,13 +171,34 @@ class WireWriter:
         await asyncio.shield(self._close_waiter)
 
 
+def check_address(host, port):
+    """what the real asyncio.open_connection(host, port) does with its ARGUMENTS for an IP-literal host (no getaddrinfo):
+    a port outside 0..65535 -> OverflowError('connect(): port must be 0-65535.') from sock.connect(); a host with an
+    embedded NUL -> ValueError.  Neither is an OSError.  The port is whatever value
+    flowed into the call - a python int or the symbolic 32-bit word read from ConnectToPeer.Response / GetPeerAddress.Response
+    by the real codec (then the range test forks)."""
+    p = port.v if isinstance(port, codec.Box) else port
+    if isinstance(host, str) and '\0' in host:
+        raise ValueError('embedded null character')
+    if p is None:
+        return
+    if isinstance(p, (SWord, symex.SInt)):
+        bad = bool(p > 65535) or bool(p < 0)
+    elif isinstance(p, int):
+        bad = not 0 <= p <= 65535
+    else:
+        raise symex.HarnessError(f'open_connection fake: port of type {type(p).__name__} is not modelled')
+    if bad:
+        raise OverflowError('connect(): port must be 0-65535.')
+
+
 class Attempt:
     """one asyncio.open_connection call"""
 
     def __init__(self, owner, host, port, outcome, delay):
         self.owner, self.host, self.port = owner, host, port
         self.outcome, self.delay = outcome, delay
-        self.status = 'pending'       # pending | open | refused | cancelled
+        self.status = 'pending'       # pending | open | refused | cancelled | rejected (bad arguments)
         self.wire = None
         self.gate = None
 
@@ -212,6 +233,15 @@ class Streams:
         outcome, delay = self.script.pop(0) if self.script else self.default
         att = Attempt(owner, host, port, outcome, delay)
         self.attempts.append(att)
+        try:
+            check_address(host, port)
+        except (OverflowError, ValueError):
+            # the real call raises these from sock.connect() / the address conversion before any I/O and without
+            # yielding to the loop (validated in the prelude of props/c10.py)
+            att.status = 'rejected'
+            if symex._CTX is not None:
+                symex._CTX.reach('connect_argument_rejected')
+            raise
         loop = asyncio.get_running_loop()
         att.gate = loop.create_future()
 
@@ -539,6 +569,10 @@ def server_get_user_status(username, status, privileged_byte):      # server cod
     return frame(le(7, 4), string(username) + le(status, 4) + [privileged_byte])
 
 
+def server_get_peer_address(username, ip_terms, port, obf_amount, obf_port16):     # server code 3; obfuscated port is a uint16
+    return frame(le(3, 4), string(username) + list(reversed(list(ip_terms))) + le(port, 4) + le(obf_amount, 4) + le(obf_port16, 2))
+
+
 def server_cannot_connect(ticket):                   # server code 1001
     return frame(le(1001, 4), le(ticket, 4))
 
@@ -553,9 +587,11 @@ def obfuscate(plain, key_terms):
 
 
 STUBS = [
-    'asyncio.open_connection -> engine.c10env.Streams.open_connection: scripted attempt (answers ok / refused after an optional '
-    'delay, or never); suspends at least one loop iteration like the real call; the attempt records which DataConnection made it and '
-    'whether it is still pending, cancelled, refused or open',
+    'asyncio.open_connection -> engine.c10env.Streams.open_connection: first treats its ARGUMENTS like the real call for an IP-literal '
+    'host (port outside 0..65535 -> OverflowError, NUL in host -> ValueError, raised without yielding; the '
+    'port is the possibly symbolic value that flowed from the wire, the range test forks), then a scripted attempt (answers ok / refused '
+    'after an optional delay, or never) that suspends at least one loop iteration like the real call; the attempt records which '
+    'DataConnection made it and whether it is pending, cancelled, refused, rejected or open',
     'asyncio.start_server -> engine.c02env.FakeServer (incoming() runs the real ListeningConnection.accept in a task like '
     'StreamReaderProtocol; an exception escaping it goes to the loop handler and closes the transport)',
     'StreamReader -> engine.c02env.FakeReader (byte terms; validated against asyncio.StreamReader in the prelude); StreamWriter -> '
